@@ -22,7 +22,7 @@ impl Prop for C08 {
         vec!["bodies fit the SMBus frame (oversize is C04/C16)".into()]
     }
     fn strategy(&self, _tier: Tier) -> BoxedStrategy<EncCase> {
-        (gen::enc_env(gen::addr7().boxed()), prop_oneof![3 => gen::vendor_call(true, false), 2 => gen::trait_call(false, false)])
+        gen::enc_pair(gen::addr7().boxed(), prop_oneof![3 => gen::vendor_call(true, false), 2 => gen::trait_call(false, false)].boxed())
             .prop_map(|(env, call)| EncCase { env, call })
             .boxed()
     }
